@@ -156,7 +156,30 @@ func e2ePart(r *ev.Report) {
 						s.WaitQuiet(100*time.Millisecond, 10*time.Second)
 					}
 					s.WaitQuiet(300*time.Millisecond, 20*time.Second)
-					check(s.Output()[m4:], rows2, "after a resize of rows and columns")
+					if check(s.Output()[m4:], rows2, "after a resize of rows and columns") {
+						// and back to the size the program was started with (a value it has seen before)
+						m5 := s.Mark()
+						s.Resize(rows, cols)
+						if s.WaitFor(m5, 90*time.Second, func(after string) bool {
+							_, fr := e2e.Frames(after)
+							for _, f := range fr {
+								if len(e2e.Lines(f)) == rows {
+									return true
+								}
+							}
+							return false
+						}) {
+							m6 := s.Mark()
+							for i := 0; i < len(keys); i++ {
+								s.Send([]byte{keys[i]})
+								s.WaitQuiet(100*time.Millisecond, 10*time.Second)
+							}
+							s.WaitQuiet(300*time.Millisecond, 20*time.Second)
+							check(s.Output()[m6:], rows, "after resizing back to the initial size")
+						} else {
+							bad("resize-not-followed", fmt.Sprintf("the terminal went back from %dx%d to its initial %dx%d; no frame of that height within 90 s", rows2, cols2, rows, cols))
+						}
+					}
 				} else {
 					bad("resize-not-followed", fmt.Sprintf("the terminal changed from %dx%d to %dx%d; no frame of the new height within 90 s", newRows, cols, rows2, cols2))
 				}
